@@ -97,6 +97,9 @@ def draw_scenario(cs, cfg):
     # the operator is made (and used) while a caller-opened substitution has replaced the object's tensors -
     # what every enclosing functional's backward pass does to a functional called inside its user function
     sc["construct_under_subst"] = sc["fkind"] != "plain" and cs.bool("construct_under_subst", 1, 4)
+    # ... and in half of those the substitution ends right after the construction: the operator outlives the block
+    # it was made in (what every rootfinder backward does) and goes on describing the function at ITS tensors
+    sc["outer_exit"] = bool(sc["construct_under_subst"]) and cs.bool("outer_exit_after_construct", 1, 2)
     sc["rgW"] = not cs.bool("W_nograd", 1, 6)
     sc["rgb"] = not cs.bool("b_nograd", 1, 6)
     # which argument the derivative is taken with respect to
@@ -378,6 +381,13 @@ def execute(sc, plan, reference=None):
             if outer_cm is not None:
                 outer_cm.__exit__(None, None, None)
             return {"values": [], "N": SIM.seq, "violations": viol, "info": info}
+    if outer_cm is not None and sc.get("outer_exit"):
+        outer_cm.__exit__(None, None, None)
+        outer_cm = None
+        for inv, detail in compare(true_snap, env.actor):
+            V(inv, "construct", "after the substitution around the construction ended: " + detail)
+        init_snap = Snapshot(env.actor, "obj")
+        SIM.count("reach.operator_outlives_the_substitution_it_was_made_in")
     if tuple(op.shape) != (env.nout, env.nin):
         V("operator_shape", "construct", "operator shape %s, expected (%d, %d)" % (tuple(op.shape), env.nout, env.nin))
     SIM.set_plan(plan)
